@@ -407,6 +407,43 @@ class Outcome:
         self.unknown = has_unknown(path.value) or any(has_unknown(c) for c in path.conds)
 
 
+_MODEL: list = [None]
+
+
+def class_axioms(f) -> list:
+    """Closed-world facts about the repository's classes for the isinstance atoms of a guard: a subclass instance is an instance of its base;
+    two classes without a common subclass in the repository have no common instance."""
+    from .setalg import atoms_of, f_or
+
+    model = _MODEL[0]
+    if model is None:
+        return []
+    by_subject: dict = {}
+    for a in atoms_of(f):
+        if isinstance(a, tuple) and a and a[0] == "isinstance" and isinstance(a[2], tuple) and len(a[2]) == 1 and isinstance(a[2][0], str):
+            by_subject.setdefault(a[1], []).append(a)
+    out = []
+    for _subj, atoms in by_subject.items():
+        for i, x in enumerate(atoms):
+            cx = model.classes.get(x[2][0])
+            if cx is None:
+                continue
+            for y in atoms[i + 1:]:
+                cy = model.classes.get(y[2][0])
+                if cy is None or cy is cx:
+                    continue
+                if cx.is_subclass_of(cy):
+                    out.append(f_or(f_not(("atom", x)), ("atom", y)))
+                elif cy.is_subclass_of(cx):
+                    out.append(f_or(f_not(("atom", y)), ("atom", x)))
+                else:
+                    subs_x = {c.qname for c in cx.all_subclasses()}
+                    subs_y = {c.qname for c in cy.all_subclasses()}
+                    if not (subs_x & subs_y):
+                        out.append(f_not(f_and(("atom", x), ("atom", y))))
+    return out
+
+
 def joint_guard(a: "Outcome", b: "Outcome", sa: SetAlg):
     conds = list(a.conds) + list(b.conds)
     wit = [(c[1], c[2]) for c in conds if c[0] == "iter-elem"]
@@ -415,7 +452,9 @@ def joint_guard(a: "Outcome", b: "Outcome", sa: SetAlg):
         for c in conds:
             if c[0] == "forall-not":
                 ax.extend(_instantiate(c, wit, sa))
-    return f_and(a.guard, b.guard, *[norm_formula(x) for x in ax])
+    g = f_and(a.guard, b.guard, *[norm_formula(x) for x in ax])
+    cax = class_axioms(g)
+    return f_and(g, *cax) if cax else g
 
 
 def evaluate(model: Model, qname: str, mk_ev: Callable[[], Evaluator], types: dict[str, Any], self_type: Any = None, func: Func | None = None,
@@ -440,6 +479,7 @@ def compare_with_reference(model: Model, impl_q: str, ref_q: str, types: dict[st
                            post: Callable[[Term], Term] | None = None, ignore_raises: bool = False, ref_types: dict[str, Any] | None = None,
                            infeasible: Callable[[Path], bool] | None = None, impl_func: Func | None = None, ref_func: Func | None = None):
     """Return (impl_func, verdict, detail, sample) with verdict in PROVEN / REFUTED / UNKNOWN."""
+    _MODEL[0] = model
     f, ev_i, pi = evaluate(model, impl_q, mk_ev, types, func=impl_func)
     _, ev_r, pr = evaluate(model, ref_q, mk_ev, ref_types or types, func=ref_func, recurse_as=(f.qname,))
     import ast as _ast
